@@ -478,3 +478,64 @@ func r17NoHiddenGlobalState(c *cx, id string) int {
 	c.r.Check(id, nil, "functions scanned for stores into package-level variables", "W: no function of the module writes package-level state", token.NoPos, true, "")
 	return n
 }
+
+// r17StanzaTypesAreNotMarshalers (C13.40): the three stanza types are headers:
+// they are embedded in payload structs (struct{ stanza.Presence; X ... }) and
+// the two encodings of such a struct - reflection by encoding/xml, and the
+// module's marshal helpers - must agree. A TokenReader, WriteXML, MarshalXML
+// or UnmarshalXML method on IQ, Message or Presence is promoted into every
+// struct that embeds the type: the helpers then encode the bare stanza and
+// silently drop the payload, while xml.Marshal keeps it. The method sets of the
+// three types contain none of the marshaler methods.
+func r17StanzaTypesAreNotMarshalers(c *cx, id string) {
+	pk := c.p.Pkg("stanza")
+	if pk == nil {
+		c.r.Unresolved(id, "package stanza")
+		return
+	}
+	n := 0
+	for _, tn := range []string{"IQ", "Message", "Presence"} {
+		obj := pk.Types.Scope().Lookup(tn)
+		if obj == nil {
+			c.r.Unresolved(id, "type stanza."+tn)
+			continue
+		}
+		n++
+		var bad []string
+		for _, t := range []types.Type{obj.Type(), types.NewPointer(obj.Type())} {
+			ms := types.NewMethodSet(t)
+			for i := 0; i < ms.Len(); i++ {
+				switch m := ms.At(i).Obj().Name(); m {
+				case "TokenReader", "WriteXML", "MarshalXML", "UnmarshalXML":
+					bad = append(bad, m)
+				}
+			}
+		}
+		c.r.CheckNamed(id, "stanza."+tn, "marshaler methods of the stanza type", "K: none (the type is embedded in payload structs; a promoted marshaler hides their payload)", obj.Pos(), len(bad) == 0, "has "+strings.Join(bad, ", "))
+	}
+	c.r.Floor(id, "stanza types examined", n, 3)
+}
+
+// r17BorrowedReaderNotClosed (C06.38): stanza.UnmarshalError / UnmarshalIQError
+// read an error out of a response that their CALLER owns and closes
+// (UnmarshalIQ, IterIQ, the MUC join and leave goroutines all do). They close
+// nothing: xmlstream.Iter.Close closes the reader the iterator was built on,
+// and a response closed twice is a close of a closed channel in the caller.
+func r17BorrowedReaderNotClosed(c *cx, id string) {
+	n := 0
+	for _, name := range []string{"UnmarshalError", "UnmarshalIQError"} {
+		f := c.fn(id, "stanza", name)
+		if f == nil {
+			continue
+		}
+		n++
+		bad := ""
+		for _, cl := range f.AllCalls() {
+			if sel, ok := ast.Unparen(cl.Fun).(*ast.SelectorExpr); ok && sel.Sel.Name == "Close" {
+				bad = f.CalleeID(cl) + " at " + f.Prog.Pos(cl.Pos())
+			}
+		}
+		c.r.Check(id, f, "closes in a function that borrows its reader", "K: none (the caller closes the response)", f.Pos(), bad == "", "calls "+bad+": the response is closed a second time by its owner")
+	}
+	c.r.Floor(id, "error decoders of package stanza", n, 2)
+}
